@@ -43,7 +43,8 @@ def build_template(compress, nprev):
     from wpull.warc.recorder import WARCRecorder, WARCRecorderParams
     wd = warcharn.new_workdir()
     warcharn.reset_ids()
-    p = dict(compress=compress, digests=True, cdx=False, log=False, appending=False)
+    p = dict(compress=compress, digests=True, cdx=False, log=False, appending=False,
+             **rec_extra())
     rec, info = warcharn.make_recorder(p, wd)
     for i in range(nprev - 1):
         rec.write_record(make_record('small'))
@@ -51,8 +52,17 @@ def build_template(compress, nprev):
     return wd
 
 
+_SPLIT = [False]
+
+
 def archive_name(compress):
-    return 'out.warc.gz' if compress else 'out.warc'
+    base = 'out-00000' if _SPLIT[0] else 'out'
+    return base + ('.warc.gz' if compress else '.warc')
+
+
+def rec_extra():
+    # a size limit that is never reached: archives get the numbered name
+    return {'max_size': 10 ** 9} if _SPLIT[0] else {}
 
 
 def valid_archive(data, compress):
@@ -77,7 +87,7 @@ def run_append(template, compress, kind, fault_at=None, fault_mode='error',
         warcharn.reset_ids(1000)
         if scenario == 'append':
             p = dict(compress=compress, digests=True, cdx=False, log=False,
-                     appending=True)
+                     appending=True, **rec_extra())
             rec, info = warcharn.make_recorder(p, wd)
             before = warcharn.collect(wd)
             record = make_record(kind)
@@ -93,7 +103,7 @@ def run_append(template, compress, kind, fault_at=None, fault_mode='error',
             # the very first append: the warcinfo record written by the constructor
             before = warcharn.collect(wd)
             p = dict(compress=compress, digests=True, cdx=False, log=False,
-                     appending=(scenario == 'construct-append'))
+                     appending=(scenario == 'construct-append'), **rec_extra())
             fs = faultfs.FaultFS(wd, fault_at, fault_mode)
             with fs:
                 try:
@@ -120,7 +130,7 @@ def recorder_refuses(files, compress):
         try:
             rec, info = warcharn.make_recorder(
                 dict(compress=compress, digests=True, cdx=False, log=False,
-                     appending=True), wd)
+                     appending=True, **rec_extra()), wd)
         except OSError:
             return True
         return False
@@ -171,6 +181,10 @@ def jobs(tier, seed):
                                scenario='append', tier=tier))
         js.append(dict(compress=compress, nprev=0, kind='warcinfo',
                        scenario='construct', tier=tier))
+        js.append(dict(compress=compress, nprev=2, kind='small', scenario='append', tier=tier,
+                       split=True))
+        js.append(dict(compress=compress, nprev=0, kind='warcinfo', scenario='construct',
+                       tier=tier, split=True))
     if seed:
         k = seed % len(js)
         js = js[k:] + js[:k]
@@ -182,7 +196,9 @@ def run_job(job, cap=5):
                samples=[], distinct=set(), extra={'ops_total': 0, 'crash_states': 0,
                                                   'io_faults': 0})
     compress, kind, scen = job['compress'], job['kind'], job['scenario']
-    tag = '%s/%s/prev=%d/%s' % ('gz' if compress else 'plain', kind, job['nprev'], scen)
+    _SPLIT[0] = bool(job.get('split'))
+    tag = '%s/%s/prev=%d/%s%s' % ('gz' if compress else 'plain', kind, job['nprev'], scen,
+                                  '/numbered' if job.get('split') else '')
     template = build_template(compress, job['nprev']) if scen == 'append' else None
     seen = set()
 
